@@ -301,6 +301,20 @@ namespace foonathan
             bool equal_to(std::false_type,
                           const std_allocator<U, RawAllocator>& other) const noexcept
             {
+                return equal_to_any(is_any{}, other);
+            }
+
+            template <typename U> // type-erased: equal if they refer to the same allocator
+            bool equal_to_any(std::true_type,
+                              const std_allocator<U, RawAllocator>& other) const noexcept
+            {
+                return get_allocator().target() == other.get_allocator().target();
+            }
+
+            template <typename U> // not type-erased
+            bool equal_to_any(std::false_type,
+                              const std_allocator<U, RawAllocator>& other) const noexcept
+            {
                 return equal_to_impl(typename allocator_traits<RawAllocator>::is_stateful{}, other);
             }
 
